@@ -75,7 +75,12 @@ def gen_plan(rng, tier, config, opts):
         if name == 'rsasig' and o.get('hash') == 1:
             o['mlen'] = 32              # the pre-hashed interface takes a SHA-256 digest
         lines.append('SESSION %d %s %s' % (sid, name, ' '.join('%s=%s' % kv for kv in o.items())))
-        if faulty and rng.chance(0.75):
+        sigpts = [f for f, t in sp.fields.items() if t in ('g1', 'g2', 'ec') and f not in KEYFIELDS]
+        if faulty and len(sigpts) >= 2 and rng.chance(0.05):
+            # a dishonest sender sets every point of the signature / proof to the identity at once
+            for f in sigpts:
+                lines.append('FAULT %d %s v_inf %d %d' % (sid, f, rng.below(100000), rng.below(256)))
+        elif faulty and rng.chance(0.75):
             nf = rng.choice([1, 1, 1, 2])
             flds = list(sp.fields.items())
             for _ in range(nf):
